@@ -100,6 +100,12 @@ def asConcItem (j : Json) : Except String (PyVal Q × Nat) :=
 
 def showOk : Unit → String := fun _ => "ok"
 
+def getNatList (j : Json) (k : String) : Except String (List Nat) := do
+  (← getIntList j k).mapM fun i => if i < 0 then .error s!"!bad-arg:{k}" else pure i.toNat
+
+def getStoich (j : Json) : Except String Stoich := do
+  pure ⟨← getNatList j "reac", ← getNatList j "prod", ← getNatList j "inact_reac", ← getNatList j "inact_prod"⟩
+
 def showPairs (l : List (PyVal Q × Q)) : String :=
   "[" ++ ",".intercalate (l.map fun p => "[" ++ showPy p.1 ++ "," ++ sr p.2 ++ "]") ++ "]"
 
@@ -109,6 +115,8 @@ def h : Handler := fun op j =>
       let t ← getTable j
       pure ("[" ++ ",".intercalate ((argsDims t (← getInt j "order")).map showDims) ++ "]")
   | "reaction_check" => do out showOk (reactionCheck (← getPy j "param") (← getInt j "order"))
+  | "reaction_check_s" => do out showOk (reactionCheckS (← getPy j "param") (← getStoich j))
+  | "equilibrium_check_s" => do out showOk (equilibriumCheckS (← getPy j "param") (← getStoich j))
   | "equilibrium_check" => do
       out showOk (equilibriumCheck (← getPy j "param") (← getInt j "nprod") (← getInt j "nreac"))
   | "dedim_args" => do out showPairs (dedimArgs (← getReg j) (← getPyList j "args"))
